@@ -22,6 +22,7 @@ import (
 	"github.com/Oneledger/protocol/app/node"
 	"github.com/Oneledger/protocol/config"
 	"github.com/Oneledger/protocol/identity"
+	"github.com/Oneledger/protocol/utils/verifseam"
 )
 
 // ScratchRoot is where replica directories live (tmpfs).
@@ -135,6 +136,9 @@ type Replica struct {
 	pending  [][]*tmtypes.TxResult
 	Dead     bool // the app closed itself after a recovered panic
 	natFlag  bool // the witness flag as computed by the start-up code of the current instance
+	// Seam is this replica's nondeterminism context (map orders, clock offset, UUID node); only
+	// consulted by binaries built with the seam rewriter (C01).
+	Seam *verifseam.Ctx
 	cur      struct {
 		h   int64
 		txs [][]byte
@@ -164,6 +168,9 @@ func (r *Replica) open() error {
 	cfg := config.DefaultServerConfig()
 	cfg.Node.NodeName = r.ID.Name
 	cfg.Node.LogLevel = 0
+	if lv := os.Getenv("VERIF_LOGLEVEL"); lv != "" {
+		fmt.Sscan(lv, &cfg.Node.LogLevel)
+	}
 	cfg.Node.DB = "goleveldb"
 	path := filepath.Join(r.Dir, config.FileName)
 	if _, err := os.Stat(path); err != nil {
@@ -191,6 +198,7 @@ func (r *Replica) open() error {
 // activate points the process-wide globals at this replica. Called before every ABCI call.
 func (r *Replica) activate() {
 	tmrpccore.SetTxIndexer(r.Index)
+	verifseam.Use(r.Seam)
 	if r.ID.Natural {
 		identity.VerifSetETHWitness(r.natFlag)
 	} else {
